@@ -1552,6 +1552,15 @@ def r02_9(ctx, repo):
             f = U(n.func)
             if f.endswith('.n_covariates'):
                 return N_COV
+            if f in ('sorted', 'reversed', 'np.sort', 'np.flip',
+                     'np.random.permutation') and n.args:
+                # a re-ordered sequence: same length, other positions
+                v = self.ev(n.args[0], env, fn, depth, owner)
+                if isinstance(v, Arr) and v.ndim == 1:
+                    lab = '%s(%s)' % (f, nest_str(v.axes[0].nest))
+                    return Arr([Ax(v.axes[0].size,
+                                   ((lab, v.axes[0].size),))],
+                               is_list=v.is_list)
             return super()._call(n, env, fn, depth, owner)
     for cls, m, arg, axes, field, want in NORMALISE_SITES:
         fn = repo.method(cls, m)
@@ -1589,7 +1598,27 @@ def r02_9(ctx, repo):
         else:
             ctx.error(rule, '%s: stored value of `%s` not derived' % (
                 construct, arg))
-    ctx.floor(rule, 2)
+        # the rows of the table belong, by position, to the entries of the
+        # list of likelihoods as the caller passed it
+        lls = env.get('self._log_likelihoods')
+        if cls == 'HierarchicalLogLikelihood':
+            if isinstance(lls, Arr) and lls.ndim == 1 and nest_eq(
+                    lls.axes[0].nest, ((N_IDS.name, N_IDS),)):
+                ctx.ok(rule, where, construct,
+                       'the likelihoods are stored in the order of the '
+                       'input, the order of the covariate rows', engine=ENG)
+            elif isinstance(lls, Arr) and lls.ndim == 1:
+                ctx.violation(
+                    rule, where, construct, 'pairing likelihoods/covariates',
+                    'the likelihoods are stored as %s while row i of '
+                    '`covariates` still belongs to the i-th likelihood of '
+                    'the input: individuals are evaluated with the '
+                    'covariates of other individuals' % nest_str(
+                        lls.axes[0].nest), engine=ENG)
+            else:
+                ctx.error(rule, '%s: order of the stored likelihoods not '
+                          'derived' % construct)
+    ctx.floor(rule, 3)
 
 
 # -----------------------------------------------------------------------------
